@@ -512,6 +512,85 @@ def run_cli(case, agg):
     else:
         agg.ok(h8("c10cli", case), f"ok:cli:{case['sub']}", sample=case if case["eb"] is None else None)
 
+# ---------------------------------------------------------------------------------------------------
+# Stage: what the payload bytes look like (erased flash, padding, a CBOR break, a cache file of its own)
+# ---------------------------------------------------------------------------------------------------
+CONTENT_STYLES = ["pattern", "ends-ff", "starts-ff-ends-00", "all-ff", "all-00", "ends-break-like-ffff", "looks-like-a-cache", "starts-with-empty-key"]
+
+
+def styled(n, style, salt=0):
+    b = bytearray(payload(n, salt))
+    if not n:
+        return bytes(b)
+    if style == "ends-ff":
+        b[-1] = 0xFF
+    elif style == "starts-ff-ends-00":
+        b[0], b[-1] = 0xFF, 0x00
+    elif style == "all-ff":
+        b[:] = b"\xff" * n
+    elif style == "all-00":
+        b[:] = bytes(n)
+    elif style == "ends-break-like-ffff":
+        b[-2:] = b"\xff\xff"[:min(2, n)]
+    elif style == "looks-like-a-cache":
+        img = b"\xbf\x61a\x5a\x00\x00\x00\x01\x07\x60\x41\x00\xff"
+        b[:] = (img * (n // len(img) + 1))[:n]
+    elif style == "starts-with-empty-key":
+        b[:3] = b"\x60\x5a\x00"[:min(3, n)]
+    return bytes(b)
+
+
+def content_cases(tier):
+    ebs = [1, 2, 8, 64] if tier == "quick" else [1, 2, 3, 4, 8, 16, 64, 256]
+    out = []
+    for eb in ebs:
+        for nslots in (1, 2):
+            for res in (RES if eb > 2 else ["r0"]):
+                for s1 in CONTENT_STYLES:
+                    for s2 in (CONTENT_STYLES if nslots == 2 else [None]):
+                        out.append({"eb": eb, "n": nslots, "res": res, "s1": s1, "s2": s2})
+    return out
+
+
+def run_content(case, agg):
+    """1-2 slots whose LAST slot has the given length residue, each payload in one of 8 byte styles; the file is written
+    by the slot API, read back, then merged with a second cache and read back again"""
+    cc = _mod()
+    eb, res = case["eb"], case["res"]
+    uris = ["file://first.bin", "cache://second.bin"][:case["n"]]
+    pairs = []
+    for i, u in enumerate(uris):
+        last = i == len(uris) - 1
+        n = _len_for_residue(eb, i == 0, u, res if last else "mid")
+        if n < 4:
+            n += eb * ((4 - n + eb - 1) // eb)
+        pairs.append((u, styled(n, case["s1"] if i == 0 else case["s2"], i)))
+    key = h8("c10c", case)
+    label = f"eb={eb} slots={[(u, len(p_)) for u, p_ in pairs]} styles={case['s1']}/{case['s2']} last-slot residue {res}"
+    with fresh_dir("c10c") as d:
+        f1, f2, fm = os.path.join(d, "a.cache"), os.path.join(d, "b.cache"), os.path.join(d, "m.cache")
+        try:
+            c = cc.CachePartition(eb)
+            for u, p_ in pairs:
+                c.add_cache_slot(u, p_)
+            c.close_and_save_cache(f1)
+            data = open(f1, "rb").read()
+            problems = check_cache(data, eb, pairs)
+            if not problems:
+                other = [("#other", styled(5, case["s1"], 9))]
+                c2 = cc.CachePartition(eb)
+                c2.add_cache_slot(*other[0])
+                c2.close_and_save_cache(f2)
+                cc.main(cache_create_subcommand="merge", input=[f1, f2], output_file=fm, eb_size=eb)
+                problems = ["after merge with a second cache: " + x for x in check_cache(open(fm, "rb").read(), eb, pairs + other)]
+        except Exception as e:
+            agg.viol(f"C10:crash/{type(e).__name__}", f"{label}: {type(e).__name__}: {e}")
+            return
+    if problems:
+        agg.viol("C10:" + _classify(problems[0].replace("after merge with a second cache: ", "")), f"{label}: " + "; ".join(problems[:3]), artefacts={"cache_hex": data[:256].hex(), "size": len(data)})
+    else:
+        agg.ok(key, f"ok:slots={case['n']}", sample=case if (case["s1"] == "ends-ff" and eb == 8 and res == "r0" and case["n"] == 1) else None)
+
 
 def plan(tier):
     depth = 4 if tier == "quick" else 6
@@ -520,6 +599,8 @@ def plan(tier):
                   rule="eb x URI length x payload length (every residue), two slots"),
         BfsStage("sequences", seq_init, seq_step, max_depth=depth,
                  rule="add-slot histories; alphabet 5 residues x {new, duplicate URI}; eb in {4,16,64}"),
+        CaseStage("payload-content", lambda: content_cases(tier), run_content,
+                  rule="eb x 1-2 slots x residue of the last slot x 8 byte styles per payload (erased flash, zeros, 0xFF at the ends, break-like, cache look-alike); written, read back, merged, read back"),
         CaseStage("merge", lambda: merge_cases(tier), run_merge,
                   rule="ordered 1-3 tuples of a 9-cache pool x eb' in {4,16,64}, plus merges of merged caches"),
         CaseStage("uri-alphabet", lambda: uri_cases(tier), run_uris, rule="ordered pairs of URIs that differ in case / surrounding blanks / script, through from_payloads main"),
